@@ -17,3 +17,4 @@ def run(ctx):
     modelrules.Z2(ctx)
     pathrules.Z3(ctx)
     modelrules.Z4(ctx)
+    modelrules.Z4b(ctx)
